@@ -128,6 +128,7 @@ def element_classes(cd: Codecs, u, attr):
 
 def run(prog, rep):
     cd = Codecs(prog)
+    cd.flag_errors(rep)
     rep.explanation = (
         "the oracle for 'content' is the writer: every attribute the layout term of C._write reads must take part in C.__eq__ "
         "(eq-coverage) unless __eq__ is byte-level (serialises both operands, faithful by C01); element-wise zip comparisons "
